@@ -129,6 +129,7 @@ Verdict eval_c11(const Case &c) {
                 if (got.x != want.x || got.y != want.y) v.fail(fmt("%s: pin %zu of shape %d is at (%.12g,%.12g), its offsets put it at (%.12g,%.12g)", phase.c_str(), i, c.pins[i].shape, got.x, got.y, want.x, want.y), "pin-position");
             }
             std::map<std::tuple<int, double, double>, int> exclUse;
+            std::map<std::tuple<int, double, double>, bool> exclFallback;   // some user of the position is a pin-to-pin connector drawn as a bare straight line (F41)
             for (size_t i = 0; i < cn.size() && v.ok; i++) {
                 const ConnSpec &k = c.conns[i];
                 std::vector<P> disp = toPts(cn[i]->displayRoute()), raw = toPts(cn[i]->route());
@@ -150,7 +151,7 @@ Verdict eval_c11(const Case &c) {
                             // known finding F41: the end sits at the centre of the attached shape (the dummy vertex libavoid routes pin classes through), i.e. no pin was assigned
                             Box bb = bbox(shapes[shape]); bool centre = end.x == (bb.x0 + bb.x1) / 2 && end.y == (bb.y0 + bb.y1) / 2;
                             v.fail(fmt("%s: connector %zu end %d is at (%.12g,%.12g)%s, which is not the position of any pin of class %d on shape %d; route %s", phase.c_str(), i, e, end.x, end.y, centre ? " [the centre of that shape]" : "", cls, shape, ptsStr(disp).c_str()), centre ? "F41-pin-end-at-shape-centre" : "not-at-a-pin"); break; }
-                        if (excl) exclUse[std::make_tuple(shape, end.x, end.y)]++;
+                        if (excl) { exclUse[std::make_tuple(shape, end.x, end.y)]++; if (k.srcKind == 1 && k.dstKind == 1 && disp.size() == 2) exclFallback[std::make_tuple(shape, end.x, end.y)] = true; }
                         // A pin lying exactly on the routing boundary (inside offset 0 and buffer 0) can also be reached by sliding
                         // along the shape's edge, whose visibility line passes through it; the direction clause is judged where the pin
                         // is off that boundary.
@@ -182,7 +183,8 @@ Verdict eval_c11(const Case &c) {
                 for (size_t q = 0; q < c.pins.size(); q++) { P pp = pinPos(c.pins[q], shapes[c.pins[q].shape]); if (c.pins[q].exclusive && c.pins[q].shape == sh && pp.x == ux && pp.y == uy) cap++; }
                 // known finding F41 in disguise: a connector that fell back to the shape's centre looks as if it used a pin placed at the centre
                 Box bb = bbox(shapes[sh]); bool centre = ux == (bb.x0 + bb.x1) / 2 && uy == (bb.y0 + bb.y1) / 2;
-                if (v.ok && u.second > cap) v.fail(fmt("%s: %d connector ends share the exclusive pin position (%g,%g) of shape %d%s that has %d pin(s)", phase.c_str(), u.second, ux, uy, sh, centre ? " [the centre of that shape]" : "", cap), centre ? "F41-pin-end-at-shape-centre" : "exclusive-pin-shared");
+                bool fb = exclFallback.count(u.first) > 0;     // after a move the dummy vertex of a pin class sits where the previously used pin now is, not at the centre
+                if (v.ok && u.second > cap) v.fail(fmt("%s: %d connector ends share the exclusive pin position (%g,%g) of shape %d%s%s that has %d pin(s)", phase.c_str(), u.second, ux, uy, sh, centre ? " [the centre of that shape]" : "", fb ? " [one of them a pin-class to pin-class connector drawn as a bare straight line]" : "", cap), (centre || fb) ? "F41-pin-end-at-shape-centre" : "exclusive-pin-shared");
             }
         };
         for (auto &m : c.early) applyMove(m);
